@@ -27,6 +27,58 @@ fn main() {
     if args[1] == "c15-one" && args.len() >= 3 {
         std::process::exit(props::cabi_props::one_main(&verif_dir, &args[2]));
     }
+    if args[1] == "fuzz-replay" && args.len() >= 4 {
+        // dnsverif fuzz-replay <target> <artifact> : run the target's oracle on a libFuzzer artifact
+        let data = std::fs::read(&args[3]).unwrap_or_default();
+        match runner::catch(|| dnsverif::fuzzing::run_target(&args[2], &data)) {
+            Ok(Some(Ok(()))) => {
+                println!("fuzz-replay {}: property held", args[3]);
+                std::process::exit(0);
+            }
+            Ok(Some(Err(f))) => {
+                println!("--- {}\n{}", f.sig, f.detail);
+                std::process::exit(1);
+            }
+            Ok(None) => {
+                eprintln!("unknown fuzz target {}", args[2]);
+                std::process::exit(2);
+            }
+            Err(pm) => {
+                println!("--- harness-panic {}", pm);
+                std::process::exit(1);
+            }
+        }
+    }
+    if args[1] == "dump-corpus" && args.len() >= 3 {
+        // dnsverif dump-corpus <dir> : seed corpora for the fuzz targets from the generators
+        use proptest::prelude::RngCore;
+        let dir = &args[2];
+        let mut seed = [0u8; 32];
+        seed[0] = 42;
+        let mut rng = proptest::test_runner::TestRng::from_seed(proptest::test_runner::RngAlgorithm::ChaCha, &seed);
+        for t in ["parse", "compress", "rename", "ops", "synth"] {
+            let _ = std::fs::create_dir_all(format!("{}/{}", dir, t));
+        }
+        for (i, g) in dnsverif::gens::golden_packets().iter().enumerate() {
+            let _ = std::fs::write(format!("{}/parse/golden-{}", dir, i), g);
+        }
+        for i in 0..200 {
+            let n = 64 + (rng.next_u32() % 900) as usize;
+            let mut choice = vec![0u8; n];
+            rng.fill_bytes(&mut choice);
+            let mut src = dnsverif::src::Src::new(&choice);
+            let (bytes, _) = dnsverif::props::parse_props::gen_input(&mut src);
+            if bytes.len() <= 4096 {
+                let _ = std::fs::write(format!("{}/parse/gen-{}", dir, i), &bytes);
+            }
+            for t in ["compress", "rename", "ops", "synth"] {
+                if i < 40 {
+                    let _ = std::fs::write(format!("{}/{}/choices-{}", dir, t, i), &choice);
+                }
+            }
+        }
+        std::process::exit(0);
+    }
     if args[1] == "replay" {
         if args.len() < 3 {
             usage();
@@ -41,6 +93,24 @@ fn main() {
         });
         let id = v["property"].as_str().unwrap_or("").to_string();
         let data = dnsverif::model::unhex(v["data"].as_str().unwrap_or("")).unwrap_or_default();
+        if let Some(target) = v["kind"].as_str().and_then(|k| k.strip_prefix("fuzz:")) {
+            match runner::catch(|| dnsverif::fuzzing::run_target(target, &data)) {
+                Ok(Some(Ok(()))) | Ok(None) => {
+                    println!("replay {}: property held", args[2]);
+                    std::process::exit(0);
+                }
+                Ok(Some(Err(f))) => {
+                    println!("--- {} failure: {}\n{}", id, f.sig, f.detail);
+                    println!("VIOLATION property={} replay={}", id, args[2]);
+                    std::process::exit(1);
+                }
+                Err(pm) => {
+                    println!("--- {} harness panic: {}", id, pm);
+                    println!("VIOLATION property={} replay={}", id, args[2]);
+                    std::process::exit(1);
+                }
+            }
+        }
         for (pid, _, replay) in props::registry() {
             if pid == id {
                 match runner::catch(|| replay(&data)) {
